@@ -44,7 +44,7 @@ theorem MapFrame.map {p q : Pool} (h : MapFrame p q) (hm : MapOK p) : MapOK q :=
       rw [h.heldM_eq, heldM_fresh p hm m hge]
       omega
   · intro m r' hr
-    rcases h.rq m r' hr with ⟨r, a, b⟩ | ⟨_, _, ha⟩
+    rcases h.rq m r' hr with ⟨r, a, b⟩ | ⟨_, _, ha, _⟩
     · exact b.acq (hm.acq m r a)
     · exact ha
 
@@ -177,7 +177,7 @@ theorem MapFrame.mid {p q : Pool} (h : MapFrame p q) {m : Nat} {k : Int} (hm : M
       simp only [this, if_false]
       omega
   · intro m' r' hr
-    rcases h.rq m' r' hr with ⟨r, a, b⟩ | ⟨_, _, ha⟩
+    rcases h.rq m' r' hr with ⟨r, a, b⟩ | ⟨_, _, ha, _⟩
     · exact b.acq (hm.acq m' r a)
     · exact ha
 
@@ -348,5 +348,128 @@ theorem MapMid.of_eq {p q : Pool} {m : Nat} {k : Int} (h : MapMid p m k) (hr : q
   ⟨fun t tk a b => by rw [hr]; rw [ht] at a; exact h.ref t tk a b,
    fun m' r a => by rw [hr] at a; rw [ht]; exact h.le m' r a,
    fun m' r a => by rw [hr] at a; exact h.acq m' r a⟩
+
+end Taskpool
+
+namespace Taskpool
+
+/-- `q` is `p` up to changes that keep every request's progress counters (and do not suspend a spawner anywhere
+new) and every task's request -/
+structure AccFrame (p q : Pool) : Prop where
+  len : q.tasks.length = p.tasks.length
+  tk : ∀ (t : Nat) (tk' : PTask), q.tasks[t]? = some tk' → ∃ tk : PTask, p.tasks[t]? = some tk ∧ tk'.req = tk.req
+  rql : p.reqs.length ≤ q.reqs.length
+  rq : ∀ (m : Nat) (r' : Req), q.reqs[m]? = some r' →
+        (∃ r : Req, p.reqs[m]? = some r ∧ r'.cnt = r.cnt ∧ (r'.frame = r.frame ∨ r'.frame = .done ∨ r'.frame = .running)) ∨
+        (p.reqs.length ≤ m ∧ r'.cnt.fresh ∧ (r'.frame = .notStarted ∨ r'.frame = .done ∨ r'.frame = .running))
+
+theorem AccFrame.acc {p q : Pool} (h : AccFrame p q) (ha : AccOK p) : AccOK q := by
+  have hto : ∀ m, tasksOf q.tasks m = tasksOf p.tasks m := fun m =>
+    countP_pointwise _ _ _ h.len (fun t tk' ht => by
+      obtain ⟨tk, a, b⟩ := h.tk t tk' ht
+      exact ⟨tk, a, by rw [b]⟩)
+  refine ⟨?_, ?_, ?_⟩
+  · intro t tk' ht
+    obtain ⟨tk, a, b⟩ := h.tk t tk' ht
+    rw [b]
+    exact Nat.lt_of_lt_of_le (ha.ref t tk a) h.rql
+  · intro m r' hr
+    rw [hto]
+    rcases h.rq m r' hr with ⟨r, a, b, _⟩ | ⟨hge, hc, _⟩
+    · rw [ha.tk m r a]
+      exact (congrArg Cnt.created b).symm
+    · rw [tasksOf_fresh p ha m hge]
+      exact hc.1.symm
+  · intro m r' hr
+    rcases h.rq m r' hr with ⟨r, a, b, c⟩ | ⟨_, hc, hf⟩
+    · rw [b]
+      exact (ha.rq m r a).frame c
+    · exact AccReq.fresh hc hf
+
+theorem MapFrame.accFrame {p q : Pool} (h : MapFrame p q) : AccFrame p q :=
+  ⟨h.len, fun t tk' ht => by obtain ⟨tk, a, _, c⟩ := h.tk t tk' ht; exact ⟨tk, a, c⟩, h.rql,
+   fun m r' hr => by
+     rcases h.rq m r' hr with ⟨r, a, b⟩ | ⟨hge, _, _, hc, hf⟩
+     · exact Or.inl ⟨r, a, b.cnt, b.fr⟩
+     · exact Or.inr ⟨hge, hc, hf⟩⟩
+
+theorem MapFrame.acc {p q : Pool} (h : MapFrame p q) (ha : AccOK p) : AccOK q := h.accFrame.acc ha
+
+theorem AccFrame.trans {p q r : Pool} (h1 : AccFrame p q) (h2 : AccFrame q r) : AccFrame p r := by
+  refine ⟨h2.len.trans h1.len, ?_, Nat.le_trans h1.rql h2.rql, ?_⟩
+  · intro t tk'' h
+    obtain ⟨tk', a, b⟩ := h2.tk t tk'' h
+    obtain ⟨tk, a', b'⟩ := h1.tk t tk' a
+    exact ⟨tk, a', b.trans b'⟩
+  · intro m r'' h
+    rcases h2.rq m r'' h with ⟨r', hq, e2, f2⟩ | ⟨hge, hc, hf⟩
+    · rcases h1.rq m r' hq with ⟨r0, hp, e1, f1⟩ | ⟨hge, hc, hf⟩
+      · refine Or.inl ⟨r0, hp, e2.trans e1, ?_⟩
+        rcases f2 with x | x | x
+        · rcases f1 with y | y | y
+          · exact Or.inl (x.trans y)
+          · exact Or.inr (Or.inl (x.trans y))
+          · exact Or.inr (Or.inr (x.trans y))
+        · exact Or.inr (Or.inl x)
+        · exact Or.inr (Or.inr x)
+      · refine Or.inr ⟨hge, by rw [e2]; exact hc, ?_⟩
+        rcases f2 with x | x | x
+        · rw [x]; exact hf
+        · exact Or.inr (Or.inl x)
+        · exact Or.inr (Or.inr x)
+    · exact Or.inr ⟨Nat.le_trans h1.rql hge, hc, hf⟩
+
+/-- only a request's map semaphore (and scheduling flags) changed -/
+theorem AccFrame.of_reqs (p q : Pool) (ht : q.tasks = p.tasks) (hl : q.reqs.length = p.reqs.length)
+    (hr : ∀ (m : Nat) (r' : Req), q.reqs[m]? = some r' → ∃ r, p.reqs[m]? = some r ∧ r'.cnt = r.cnt ∧ r'.frame = r.frame) :
+    AccFrame p q :=
+  ⟨by rw [ht], fun t tk' h => by rw [ht] at h; exact ⟨tk', h, rfl⟩, by rw [hl]; exact Nat.le_refl _,
+   fun m r' h => by obtain ⟨r, a, b, c⟩ := hr m r' h; exact Or.inl ⟨r, a, b, Or.inl c⟩⟩
+
+theorem AccOK.of_eq {p q : Pool} (h : AccOK p) (hr : q.reqs = p.reqs) (ht : q.tasks = p.tasks) : AccOK q :=
+  ⟨fun t tk a => by rw [hr]; rw [ht] at a; exact h.ref t tk a,
+   fun m r a => by rw [hr] at a; rw [ht]; exact h.tk m r a,
+   fun m r a => by rw [hr] at a; exact h.rq m r a⟩
+
+namespace Pool
+
+theorem accFrame_modTask (p : Pool) (t : Nat) (f : PTask → PTask) (hf : ∀ x, (f x).req = x.req) :
+    AccFrame p (p.modTask t f) := by
+  refine ⟨by simp [modTask], ?_, Nat.le_refl _, fun m r' h => Or.inl ⟨r', h, rfl, Or.inl rfl⟩⟩
+  intro i tk' h
+  obtain ⟨y, hy, rfl⟩ := getElem?_modify_some p.tasks t i f tk' h
+  exact ⟨y, hy, by split <;> simp [hf]⟩
+
+theorem accFrame_releaseMap (p : Pool) (m : Nat) : AccFrame p (p.releaseMap m) := by
+  unfold releaseMap
+  split
+  · exact (MapFrame.refl p).accFrame
+  · rename_i r hr
+    refine AccFrame.trans (q := p.modReq m fun x => { x with mapSem := r.mapSem.release.1 }) ?_
+      (tame_schedOpt _ _).mapFrame.accFrame
+    refine AccFrame.of_reqs _ _ rfl (by simp [modReq]) ?_
+    intro i r' h
+    simp only [modReq] at h
+    obtain ⟨x, hx, rfl⟩ := getElem?_modify_some p.reqs m i _ r' h
+    exact ⟨x, hx, by split <;> rfl, by split <;> rfl⟩
+
+end Pool
+end Taskpool
+
+namespace Taskpool
+
+theorem MapMid.emitRef {p : Pool} {m : Nat} {k : Int} (h : MapMid p m k) (r : Ref) : MapMid (p.emitRef r) m k :=
+  h.of_eq rfl rfl
+
+/-- request `m` is rewritten in fields the map books do not read -/
+theorem MapMid.modReq_same {p : Pool} {m : Nat} {k : Int} (h : MapMid p m k) (f : Req → Req)
+    (hs : ∀ r, (f r).mapSem = r.mapSem ∧ (f r).nc = r.nc ∧ (f r).pend ≤ r.pend ∧ (r.AcqOK → (f r).AcqOK)) :
+    MapMid (p.modReq m f) m k := by
+  refine h.modReq f k ?_ (fun r => (hs r).2.1) (fun r _ ha => (hs r).2.2.2 ha)
+  intro r v _ hv
+  refine ⟨v, by rw [(hs r).1]; exact hv, ?_⟩
+  rw [(hs r).1]
+  have := (hs r).2.2.1
+  omega
 
 end Taskpool
